@@ -2,10 +2,14 @@ package props
 
 import (
 	"fmt"
+	"hash/fnv"
 	"math/rand"
 	"reflect"
+	"sort"
 	"strings"
 	"time"
+
+	"gitee.com/xuesongtao/protoc-go-valid/valid"
 
 	"vmon/internal/clause"
 	"vmon/internal/core"
@@ -245,4 +249,115 @@ func derefPrintable(v reflect.Value) interface{} {
 		return v.Interface()
 	}
 	return v.String()
+}
+
+// ---------------------------------------------------------------------------------------
+// rule maps built the documented way
+
+// toRM turns a field->rules table into the library's RM. Two times out of three (decided by the
+// table's content, so that every process builds the same thing) it goes through the builder
+// NewRule().Set(...) instead of a map literal: rules passed as separate arguments, a field's rules
+// given in two Set calls, and a rule shared by several fields given in one multi-name call AFTER
+// the fields' own rules were set (Set appends to what a field already has). By the documented
+// semantics of Set the result is the same table.
+func toRM(m map[string]string) valid.RM {
+	if m == nil {
+		return nil
+	}
+	keys := make([]string, 0, len(m))
+	for k := range m {
+		keys = append(keys, k)
+	}
+	sort.Strings(keys)
+	h := fnv.New32a()
+	for _, k := range keys {
+		h.Write([]byte(k))
+		h.Write([]byte{0})
+		h.Write([]byte(m[k]))
+		h.Write([]byte{1})
+	}
+	mode := h.Sum32() % 3
+	lit := valid.RM{}
+	for k, v := range m {
+		lit[k] = v
+	}
+	for _, k := range keys {
+		if strings.Contains(k, ",") {
+			mode = 0 // a field name with a comma cannot be given to Set
+		}
+	}
+	if mode == 0 {
+		return lit
+	}
+	pieces := map[string][]string{}
+	for _, k := range keys {
+		pieces[k] = gen.SplitOutsideQuotes(m[k])
+	}
+	// fields that share their last rule (>= 2 fields): that rule goes into one multi-name call
+	shared := map[string][]string{}
+	for _, k := range keys {
+		ps := pieces[k]
+		if last := ps[len(ps)-1]; last != "" {
+			shared[last] = append(shared[last], k)
+		}
+	}
+	var tail string
+	for _, k := range keys { // first such rule in key order
+		ps := pieces[k]
+		if last := ps[len(ps)-1]; len(shared[last]) >= 2 {
+			tail = last
+			break
+		}
+	}
+	rm := valid.NewRule()
+	inTail := map[string]bool{}
+	if tail != "" {
+		for _, k := range shared[tail] {
+			inTail[k] = true
+		}
+	}
+	for _, k := range keys {
+		ps := pieces[k]
+		if inTail[k] {
+			ps = ps[:len(ps)-1]
+			if len(ps) == 0 {
+				continue // the field gets its only rule from the multi-name call
+			}
+		}
+		if mode == 2 && len(ps) >= 2 {
+			rm.Set(k, ps[0])
+			rm.Set(k, ps[1:]...)
+		} else {
+			rm.Set(k, ps...)
+		}
+	}
+	if tail != "" {
+		rm.Set(strings.Join(shared[tail], ","), tail)
+	}
+	return rm
+}
+
+// shareTail appends one and the same rule to two or three entries of a rule table (so that toRM
+// has something to pass in a multi-name Set call).
+func shareTail(rng *rand.Rand, m map[string]string, marker string) {
+	if len(m) < 2 || rng.Intn(3) != 0 {
+		return
+	}
+	keys := make([]string, 0, len(m))
+	for k := range m {
+		keys = append(keys, k)
+	}
+	sort.Strings(keys)
+	rng.Shuffle(len(keys), func(i, j int) { keys[i], keys[j] = keys[j], keys[i] })
+	n := 2
+	if len(keys) >= 3 && rng.Intn(2) == 0 {
+		n = 3
+	}
+	for _, k := range keys[:n] {
+		if m[k] == "" {
+			m[k] = "required|" + marker
+		} else {
+			m[k] += ",required|" + marker
+		}
+	}
 }
